@@ -31,6 +31,7 @@ RULE = (
     'values and positions as for the explicitly terminated text, exactly one EOF. '
     'Non-trivial: >=3 tokens of >=2 kinds and (an escape, a multi-line token, an end-of-input completion or a '
     'non-ASCII character); distinct by text.'
+    " The end marker of a full sheet stands behind the input (line exactly, column exactly unless a string / url( was completed); at-keywords with an escaped backslash in the name are NOT the reserved symbol, nine escaped spellings of 'and(' give IDENT + '('; an unterminated construct at the end is completed with comments switched off as well; a kept exception object keeps its own line/col after later reports; quoted url() bodies contain line continuations."
 )
 ASSUMPTIONS = [
     'simple (non-hex) backslash pairs are accepted undecoded in token values (cssutils keeps them; the statement only fixes hex escapes)',
